@@ -538,6 +538,34 @@ func (mi *muxInstance) serveHTTP(stdw http.ResponseWriter, stdr *http.Request) {
 	}
 }
 
+// allowCachedRoute re-checks for a cached result the IP filters which the
+// uncached search consults: the filter of the server, the filters of the rules
+// matching the host up to the rule owning the cached path (of all of them for
+// a cached 404 or 405), and the filter of the cached path.
+func (mi *muxInstance) allowCachedRoute(req *httpprot.Request, ip string, r *route) bool {
+	if !allowIP(mi.ipFilter, ip) {
+		return false
+	}
+
+	for _, host := range mi.rules {
+		if !host.match(req) {
+			continue
+		}
+
+		if !allowIP(host.ipFilter, ip) {
+			return false
+		}
+
+		for _, path := range host.paths {
+			if path == r.path {
+				return allowIP(path.ipFilter, ip)
+			}
+		}
+	}
+
+	return true
+}
+
 func (mi *muxInstance) search(req *httpprot.Request) *route {
 	headerMismatch, methodMismatch := false, false
 
@@ -548,13 +576,7 @@ func (mi *muxInstance) search(req *httpprot.Request) *route {
 	// headers.
 	r := mi.getRouteFromCache(req)
 	if r != nil {
-		if r.code != 0 {
-			return r
-		}
-		if r.path.ipFilterChain == nil {
-			return r
-		}
-		if r.path.ipFilterChain.Allow(ip) {
+		if mi.allowCachedRoute(req, ip, r) {
 			return r
 		}
 		return forbidden
